@@ -251,6 +251,13 @@ impl ModuleRef {
                     );
                 }
             }
+            #[cfg(petrichorit_des_verif)]
+            crate::verif::timer_state(crate::verif::TimerState {
+                module: self.ctx.path.as_str().to_string(),
+                now: crate::time::SimTime::now(),
+                slots: driver.verif_slots(),
+                next_wakeup: driver.next_wakeup,
+            });
             ext.driver = Some(driver);
         }
 
